@@ -250,7 +250,18 @@ func checkScheduleReset(c *Ctx, r *Report) {
 }
 
 func isHealthBreakerRecord(in ssa.Instruction) bool {
-	return isCall(in, pkgHealth, "CircuitBreaker", "RecordFailure") || isCall(in, pkgHealth, "CircuitBreaker", "RecordSuccess")
+	if isCall(in, pkgHealth, "CircuitBreaker", "RecordFailure") || isCall(in, pkgHealth, "CircuitBreaker", "RecordSuccess") {
+		return true
+	}
+	// the breaker held behind a small interface of the health package (IsOpen / RecordSuccess / RecordFailure)
+	if cc := getCall(in); cc != nil && cc.IsInvoke() && (cc.Method.Name() == "RecordFailure" || cc.Method.Name() == "RecordSuccess") && in.Parent() != nil && strings.HasSuffix(fnPkgPath(in.Parent()), pkgHealth) {
+		if it, ok := cc.Value.Type().Underlying().(*types.Interface); ok && theCtx != nil {
+			if n := theCtx.Named(pkgHealth, "CircuitBreaker"); n != nil && types.Implements(types.NewPointer(n), it) {
+				return true
+			}
+		}
+	}
+	return false
 }
 
 func checkHealthRejectPath(c *Ctx, r *Report, rule string) {
